@@ -41,10 +41,23 @@ class Env:
         self.tier = tier
         self.seed = seed
         self.t0 = time.time()
-        self.rng = random.Random(seed * 1000003 + int(prop[1:]))
-        self.work = os.path.join(BUILD, "work", prop)
+        self.rng = random.Random(seed * 1000003 + (int(prop[1:]) if prop[1:].isdigit() else int(hashlib.sha256(prop.encode()).hexdigest()[:6], 16)))
+        base = os.path.join(BUILD, "work")
+        os.makedirs(base, exist_ok=True)
+        # one directory per invocation (two concurrent checks of one property must not wipe
+        # each other's files); stale ones older than a day are swept
+        for d in os.listdir(base):
+            pth = os.path.join(base, d)
+            try:
+                if d.startswith(prop + ".") and time.time() - os.path.getmtime(pth) > 86400:
+                    shutil.rmtree(pth, ignore_errors=True)
+            except OSError:
+                pass
+        self.work = os.path.join(base, "%s.%d" % (prop, os.getpid()))
         shutil.rmtree(self.work, ignore_errors=True)
         os.makedirs(self.work, exist_ok=True)
+        import atexit
+        atexit.register(lambda p=self.work: shutil.rmtree(p, ignore_errors=True) if not os.environ.get("VERIF_KEEP_WORK") else None)
         self.log_lines = []
 
     def log(self, *a):
